@@ -30,18 +30,22 @@ import (
 // table built and rendered alone beforehand.
 
 type c16Job struct {
-	spec   gen.TableSpec
-	aligns []int
-	order  []int // order in which this goroutine renders the formats
-	reuse  bool  // one table for all renders of this job (state accumulates on it) instead of a fresh one per render
-	poolAt int
-	pool   []tabular.Cell // cells prepared once by the parent for the whole batch; a job takes by-value copies of them into its own tables
+	spec       gen.TableSpec
+	aligns     []int
+	order      []int // order in which this goroutine renders the formats
+	reuse      bool  // one table for all renders of this job (state accumulates on it) instead of a fresh one per render
+	poolAt     int
+	slowYields int
+	slow       func(s string, yields int) interface{} // maker of an item of a dynamic type this process has not seen before this batch (same type for the whole batch)
+	pool       []tabular.Cell                         // cells prepared once by the parent for the whole batch; a job takes by-value copies of them into its own tables
 }
 
 type c16Res struct {
 	out string
 	err bool
 }
+
+var c16SlowNext int32
 
 var c16PropKeys = []interface{}{"c16-a", "c16-b", &struct{ n string }{"c16-c"}}
 
@@ -157,6 +161,9 @@ func (w *yieldWriter) Write(p []byte) (int, error) {
 func c16Build(j *c16Job) tabular.Table {
 	t := tabular.New()
 	j.spec.Build(t)
+	if j.slow != nil && j.spec.NCols() > 0 {
+		t.AddRowItems(j.slow("badge\nline", j.slowYields))
+	}
 	if len(j.pool) > 0 {
 		// values of common provenance: every goroutine's table gets its own by-value copies of the same prepared
 		// cells (as a row of cells and as items), the way a program fills many tables from one set of constants
@@ -194,6 +201,13 @@ func c16Run(c *Ctx, i int, r *gen.R) {
 	formats := c16Formats()
 	jobs := make([]*c16Job, G)
 	pool := c16Pool(r)
+	// a dynamic type nobody in this process has put into a cell yet: every goroutine of the batch meets it for the
+	// first time, at the same time
+	var slow func(s string, yields int) interface{}
+	if k := int(atomic.AddInt32(&c16SlowNext, 1)) - 1; k < len(c16SlowMakers) {
+		slow = c16SlowMakers[k]
+		c.Rec.Count("batches_in_which_all_goroutines_meet_a_new_item_type_at_once", 1)
+	}
 	for g := range jobs {
 		spec := r.Table(gen.TableOpts{MaxCols: 4, MaxRows: 5, ZeroHeaderOK: true, MinCols: 0, Noise: gen.NoiseSkipable | gen.NoiseAlign | gen.NoiseCallbacks,
 			Item: func(r *gen.R) gen.ItemSpec {
@@ -229,6 +243,10 @@ func c16Run(c *Ctx, i int, r *gen.R) {
 		_ = align.Left
 		if r.Chance(2, 3) {
 			j.pool, j.poolAt = pool, r.Intn(len(pool))
+		}
+		j.slow = slow
+		if g%2 == 0 {
+			j.slowYields = 4000 // half of the instances take long over their text, the others answer at once
 		}
 		jobs[g] = j
 	}
@@ -435,7 +453,7 @@ func init() {
 		Level:  "exploration",
 		Race:   true,
 		Shards: raceShards,
-		Rule: "built with -race; shards run at GOMAXPROCS = all cores, 2, 4, 1. One case = one barrier-released batch of G goroutines (G cycles through 2, 8, 16, 32, 64), each owning a random table spec (as in C10, with alignments and occasional size-declaring items) which it builds and renders in all 18 formats (csv, json, markdown, html twice through one wrapper with caption/generator/context, auto markdown, text under the six built-in decorations, auto utf8-double, text under a decoration of the goroutine's own completed by Populate() inside the goroutine, and json/csv/markdown/html/text through RenderTo into a writer that yields the processor on every Write - the caller's writer is the library's one suspension point) in a goroutine-specific order - half of the goroutines on one table of their own for all renders (so that state accumulates on it), the others on a freshly built table per render -, with property traffic on its own table, column 0 and first cell before every render (three keys in rotating order, read back after the render and compared like the output); two thirds of the tables also take a row of by-value copies of up to 7 cells the parent prepared once per batch (values of common provenance: each table owns its copies), and the same cells as items; a sixth of the tables hold an item the JSON encoder refuses, so that renders fail part-way during the batch; while 2 background goroutines read RegisteredDecorationNames/Named/auto.ListStyles in a loop. After the batch the same specs are built and rendered alone to obtain reference bytes (afterwards, so that grow-only process-wide state is first touched concurrently); 1/25 of the cells are 81-400 characters wide; every concurrent output must equal its reference. phase 1: N = 65, 70, 100, 130, 200 or 257 goroutines each render a table of their own (one format for the whole batch, or six formats mixed) into a writer whose first Write blocks until all N renders have got that far, so that N renders are in flight at the same instant; no panic, and every output equals the same table rendered alone. " +
+		Rule: "built with -race; shards run at GOMAXPROCS = all cores, 2, 4, 1. One case = one barrier-released batch of G goroutines (G cycles through 2, 8, 16, 32, 64), each owning a random table spec (as in C10, with alignments and occasional size-declaring items) which it builds and renders in all 18 formats (csv, json, markdown, html twice through one wrapper with caption/generator/context, auto markdown, text under the six built-in decorations, auto utf8-double, text under a decoration of the goroutine's own completed by Populate() inside the goroutine, and json/csv/markdown/html/text through RenderTo into a writer that yields the processor on every Write - the caller's writer is the library's one suspension point) in a goroutine-specific order - half of the goroutines on one table of their own for all renders (so that state accumulates on it), the others on a freshly built table per render -, with property traffic on its own table, column 0 and first cell before every render (three keys in rotating order, read back after the render and compared like the output); two thirds of the tables also take a row of by-value copies of up to 7 cells the parent prepared once per batch (values of common provenance: each table owns its copies), and the same cells as items; in the first 32 batches of a process every table also holds an item of a dynamic type the process has not seen before (size-declaring, with a String method that yields), so that all goroutines meet the type for the first time at once; a sixth of the tables hold an item the JSON encoder refuses, so that renders fail part-way during the batch; while 2 background goroutines read RegisteredDecorationNames/Named/auto.ListStyles in a loop. After the batch the same specs are built and rendered alone to obtain reference bytes (afterwards, so that grow-only process-wide state is first touched concurrently); 1/25 of the cells are 81-400 characters wide; every concurrent output must equal its reference. phase 1: N = 65, 70, 100, 130, 200 or 257 goroutines each render a table of their own (one format for the whole batch, or six formats mixed) into a writer whose first Write blocks until all N renders have got that far, so that N renders are in flight at the same instant; no panic, and every output equals the same table rendered alone. " +
 			"distinct_nontrivial counts distinct interleaving signatures (global completion order of the renders by goroutine id). The race detector's log is parsed by the parent; every report with a tabular frame is a violation; a fatal runtime error in the child is a violation.",
 		Assumptions: []string{
 			"each goroutine owns its tables and wrappers; sharing one table or wrapper between goroutines is out of scope (documented as unsupported for HTMLTable with a generator context)",
